@@ -179,7 +179,7 @@ def run(res: C.Result):
             res.fail("serialize", f"{c['driver']}: to_dict() of the simulation never called the user objects' to_dict", {"input": c})
     got = {}
     per = 400
-    lines = [f"Eval vm_compute in ({j}%nat, {it})." for j, it in enumerate(items)]
+    lines = [f"Eval vm_compute in ({j}%Z, {it})." for j, it in enumerate(items)]
     files = ["\n".join(lines[i:i + per]) for i in range(0, len(lines), per)]
     from concurrent.futures import ThreadPoolExecutor
 
@@ -193,7 +193,7 @@ def run(res: C.Result):
         for rc, out, err in ex.map(one, enumerate(files)):
             if rc != 0:
                 res.broken("correspondence:coq-evaluation", err[-1500:])
-            for m in re.finditer(r"=\s*\((\d+)%nat,\s*(.*?)\)\s*:\s", out, re.S):
+            for m in re.finditer(r"=\s*\((\d+)(?:%\w+)?,\s*(.*?)\)\s*:\s", out, re.S):
                 got[int(m.group(1))] = [int(x) for x in re.findall(r"-?\d+", m.group(2))]
     agree = dis = 0
     for j, (k, ti, enc, hist) in enumerate(meta):
